@@ -271,6 +271,9 @@ def templates(ch, av):
         [B('with', 'w mapping', S([T(ch)])), E('x', 'html_quote', 'newline_to_br'), B('try', '', S([T('t')]), S([T('f')], 'finally')), E('x', 'thousands_commas')],
         [B('if', 'expr="n > 1"', S([T('G' + ch)]), S([T('L')], 'else')), B('unless', '"n > 0 and n < 3"', S([T(ch)])), B('in', 'expr="s[1:]"', S([L('var', 'sequence-item')]))],
         [B('with', 'expr="w" mapping', S([B('if', '"n >= 2"', S([L('var', 'q'), T(ch)]))])), B('let', 'a="n > 1" b=x', S([L('var', 'a'), L('var', 'b')]))],
+        # literal text that merely looks like the beginning of an entity / tag, in front of real tags (the same text in all three syntaxes)
+        [T('q?id=1&dtml-lang='), L('var', 'x html_quote'), T(';k' + ch), B('if', 'c', S([T('&dtml.foo bar '), L('var', 'x'), T('; ')])), T('R&dtml-D'), L('call', 'f'), T(';')],
+        [T('a <dtml b> </dtml> <!-- # --> %% ( '), L('var', 'x'), T(ch + ' <!--x '), B('in', 's', S([T('&dtml- '), L('var', 'sequence-item'), T(';')])), T('-->')],
         # variables that are NAMED like tags
         [L('var', 'var'), T(ch), L('var', 'in'), L('var', 'if'), L('var', 'call'), L('var', 'else'), L('var', 'end'), L('var', 'elif'), L('var', 'try')],
         [B('in', 'in', S([L('var', 'sequence-item')])), B('if', 'if', S([T('y' + ch)])), B('with', 'with mapping', S([L('var', 'q')])), L('call', 'call'), B('unless', 'unless', S([T('u')]))],
